@@ -75,3 +75,41 @@ theorem inv_of_accepted {log : List Ev} {s : St} (h : runLog step init log = som
   inv_of_runLog Inv (fun s e s' => step_inv s s' e) inv_init h
 
 end PikaVerif.Sched
+
+namespace PikaVerif.Sched
+open PikaVerif
+
+/-- Every step only increases epochs, and an object that is pending-ish after a step in which its
+    epoch did not change was pending-ish before (every transition *into* a pending state bumps
+    the epoch). -/
+theorem obj_step (s s' : St) (e : Ev) (h : step s e = some s') (o' : Nat) :
+    (s.obj o').epoch ≤ (s'.obj o').epoch ∧
+    ((s'.obj o').epoch = (s.obj o').epoch → pendingish (s'.obj o').w = true → pendingish (s.obj o').w = true) := by
+  cases e <;> simp only [step] at h <;> (repeat' split at h) <;>
+    first
+    | (simp at h; done)
+    | (simp only [Option.some.injEq] at h; subst h; (try dsimp only); simp only [upd]; split <;> grind [pendingish])
+    | (simp only [Option.some.injEq] at h; subst h; (try dsimp only); grind [pendingish])
+
+/-- `obj_step` lifted to whole log segments. -/
+theorem obj_log (log : List Ev) : ∀ (s s' : St), runLog step s log = some s' → ∀ o',
+    (s.obj o').epoch ≤ (s'.obj o').epoch ∧
+    ((s'.obj o').epoch = (s.obj o').epoch → pendingish (s'.obj o').w = true → pendingish (s.obj o').w = true) := by
+  induction log with
+  | nil => intro s s' h o'; simp at h; subst h; exact ⟨Nat.le_refl _, fun _ hp => hp⟩
+  | cons e es ih =>
+    intro s s' h o'
+    simp only [runLog] at h
+    cases hs : step s e with
+    | none => simp [hs] at h
+    | some s1 =>
+      simp only [hs] at h
+      have h1 := obj_step s s1 e hs o'
+      have h2 := ih s1 s' h o'
+      refine ⟨by omega, ?_⟩
+      intro heq hp
+      have e1 : (s'.obj o').epoch = (s1.obj o').epoch := by omega
+      have e2 : (s1.obj o').epoch = (s.obj o').epoch := by omega
+      exact h1.2 e2 (h2.2 e1 hp)
+
+end PikaVerif.Sched
